@@ -11,6 +11,7 @@ import (
 	"time"
 
 	"github.com/0xReLogic/Helios/internal/circuitbreaker"
+	"github.com/0xReLogic/Helios/internal/config"
 	"vsim/simrt"
 )
 
@@ -173,12 +174,45 @@ func runCB(x *X) {
 		})
 	}
 	ok := x.RunTasks(onErr)
+	// Biased phase: trip the breaker if the history left it closed, let the timeout
+	// elapse, then fire 2-4 overlapping requests at the boundary and inside HALF-OPEN.
+	if ok && c.Intn(2, "boundary-burst") == 1 {
+		var stt circuitbreaker.State
+		x.Do("state", func() { stt = cb.State() }, onErr)
+		for k := 0; k < ft+1 && stt == circuitbreaker.StateClosed && !x.dead; k++ {
+			x.Do("trip", func() { doExec(cbOp{kind: "exec", outcome: "fail"}) }, onErr)
+			x.Do("state", func() { stt = cb.State() }, onErr)
+		}
+		if !x.dead {
+			x.Advance(timeout+time.Millisecond, onErr)
+			nb := 2 + c.Intn(3, "burst-n")
+			for k := 0; k < nb; k++ {
+				op := cbOp{kind: "exec", outcome: []string{"ok", "ok", "fail"}[c.Intn(3, "burst-outcome")], dur: time.Duration(c.Intn(3, "burst-dur")) * 100 * time.Millisecond}
+				s.Spawn("burst", func() { doExec(op) })
+			}
+			ok = x.RunTasks(onErr)
+			x.Probe("boundary-burst")
+		}
+	}
 	if ok {
 		checkCBHistory(x, evs, ft, st, mr, interval, timeout)
 	}
 
 	// ---- C08: recovery script -------------------------------------------------
-	if ok && x.Want("C08") {
+	// The property quantifies over configurations that validation accepts: ask the real
+	// validator about this (ft, st, mr, interval, timeout).
+	accepted := true
+	{
+		probe := &config.Config{Backends: []config.BackendConfig{{Name: "b", Address: "http://10.0.0.1:80"}}}
+		probe.Server.Port = 8080
+		probe.CircuitBreaker = config.CircuitBreakerConfig{Enabled: true, MaxRequests: mr, FailureThreshold: ft, SuccessThreshold: st,
+			IntervalSeconds: int(interval / time.Second), TimeoutSeconds: int(timeout / time.Second)}
+		if err := probe.Validate(); err != nil {
+			accepted = false
+			x.Probe("config-rejected-by-validation")
+		}
+	}
+	if ok && accepted && x.Want("C08") {
 		// Whenever requests would succeed again: after at most `timeout` plus a
 		// bounded number of successful requests the breaker is closed and admits.
 		x.Advance(timeout+time.Millisecond, onErr)
